@@ -25,6 +25,7 @@ type ReqInfo struct {
 // Fault is what OnRequest may return to corrupt or fail the response.
 type Fault struct {
 	Status    int                // non-zero: answer with this HTTP status and a short body
+	KeepBody  bool               // with Status: send the regular JSON-RPC body under that status (a gateway forwarding a partial answer)
 	Truncate  int                // >0: send only the first Truncate bytes of the body
 	BadJSON   bool               // replace the body by something that is not JSON
 	CloseConn bool               // hijack and close the TCP connection without answering
@@ -146,7 +147,7 @@ func (n *Node) txJSON(b *Block, tx *Tx) map[string]any {
 func (n *Node) blockJSON(b *Block, full bool) map[string]any {
 	m := map[string]any{
 		"number": hexU(b.Num), "hash": hexB(b.Hash), "parentHash": hexB(b.Parent),
-		"timestamp": hexU(b.Time), "logsBloom": "0x00", "miner": "0x" + strings.Repeat("00", 20),
+		"timestamp": hexU(b.Time), "logsBloom": zeroBloom, "miner": "0x" + strings.Repeat("00", 20),
 		"gasLimit": "0x1c9c380", "gasUsed": "0x0",
 	}
 	txs := make([]any, 0, len(b.Txs))
@@ -183,7 +184,7 @@ func receiptJSON(b *Block, tx *Tx) map[string]any {
 		"transactionIndex": hexU(tx.Idx), "type": hexU(uint64(tx.Type)), "from": hexB(tx.From), "to": optB(tx.To),
 		"status": hexU(uint64(tx.Status)), "gasUsed": hexU(tx.GasUsed), "cumulativeGasUsed": hexU(tx.GasUsed),
 		"effectiveGasPrice": hexBig(tx.EffGasPrice), "logs": logs, "contractAddress": optB(tx.ContractAddr),
-		"logsBloom": "0x00",
+		"logsBloom": zeroBloom,
 	}
 }
 
@@ -235,6 +236,10 @@ func LogMatches(l *Log, addrs []string, topics [][]string) bool {
 	}
 	return true
 }
+
+// zeroBloom: some chains (zk rollups) report an all-zero logsBloom although the block has logs;
+// the bloom is a hint for clients that filter locally, never a statement that there are no logs.
+var zeroBloom = "0x" + strings.Repeat("00", 256)
 
 func rpcErr(id any, code int, msg string) map[string]any {
 	return map[string]any{"jsonrpc": "2.0", "id": id, "error": map[string]any{"code": code, "message": msg}}
@@ -448,7 +453,7 @@ func (n *Node) Handle(body []byte) (status int, out []byte, closeConn bool) {
 	if fault != nil && fault.CloseConn {
 		return 0, nil, true
 	}
-	if fault != nil && fault.Status != 0 {
+	if fault != nil && fault.Status != 0 && !fault.KeepBody {
 		return fault.Status, []byte("upstream error <html>"), false
 	}
 	sv := Served{Seq: ri.Seq, Kind: ri.Kind}
@@ -506,6 +511,9 @@ func (n *Node) Handle(body []byte) (status int, out []byte, closeConn bool) {
 		if fault.Truncate > 0 && fault.Truncate < len(out) {
 			out = out[:fault.Truncate]
 		}
+	}
+	if fault != nil && fault.Status != 0 {
+		return fault.Status, out, false
 	}
 	return 200, out, false
 }
